@@ -24,12 +24,12 @@ pub fn run_go(prog: &Arc<goi::ProgData>, strategy: Strategy, seed: u64, forced: 
     }
     let co = Co::new();
     goi::start(prog.clone(), &co);
-    let mut ctrl = Seeded::new(strategy, seed, forced);
-    co::drive(&co, &mut ctrl, max_steps)
+    let ctrl = Seeded::new(strategy, seed, forced);
+    co::drive(&co, ctrl, max_steps).0
 }
 
 /// Run the reference interpreter under an arbitrary controller.
-pub fn run_ref(prog: &Arc<refi::RefProg>, ctrl: &mut dyn Controller, max_steps: u64) -> RunOutput {
+pub fn run_ref<C: Controller + Send + 'static>(prog: &Arc<refi::RefProg>, ctrl: C, max_steps: u64) -> (RunOutput, Box<C>) {
     let co = Co::new();
     refi::start(prog.clone(), &co);
     co::drive(&co, ctrl, max_steps)
